@@ -1,4 +1,4 @@
-(* C11 families: c11_linecol, c11_linecol_spec, c11_range, c11_spans *)
+(* C11 families: c11_linecol, c11_linecol_spec, c11_linecol_old, c11_range, c11_spans *)
 open Model
 open Util
 
@@ -17,24 +17,20 @@ let c11_offsets (s : n list) : int list =
   let len = int_of_n (blen s) in
   List.init (len + 2) (fun i -> i)
 
-(* input: hex source; output: the model of SourceFile::get_line_column at every offset 0..=len+1.
-   The one-pass form lc_impl_scan (proved equal in LineColProofs.v) is cross-checked on the way. *)
+(* input: hex source; output: the model of SourceFile::get_line_column at every offset 0..=len+1 *)
 let c11_linecol (line : string) : string =
   let s = str_of_hex line in
-  String.concat "," (List.map (fun off ->
-      let o = n_of_int off in
-      let a = c11_show_res (lc_impl_line_col s o) in
-      let b = c11_show_opt (lc_impl_scan s o (n_of_int 1) (n_of_int 1)) in
-      if a <> b then failwith ("lc_impl_scan differs from lc_impl_line_col at " ^ string_of_int off);
-      a) (c11_offsets s))
+  String.concat "," (List.map (fun off -> c11_show_res (lc_impl_line_col s (n_of_int off))) (c11_offsets s))
 
-(* input: hex source; output: the specification at every offset, with the class flags sep/col/eof *)
+(* input: hex source; output: the specification at every offset *)
 let c11_linecol_spec (line : string) : string =
   let s = str_of_hex line in
-  let b x = if x then "1" else "0" in
-  String.concat "," (List.map (fun off ->
-      let o = n_of_int off in
-      c11_show_opt (lc_line_col s o) ^ "/" ^ b (lc_k_sep s o) ^ b (lc_k_col s o) ^ b (lc_k_eof s o)) (c11_offsets s))
+  String.concat "," (List.map (fun off -> c11_show_opt (lc_line_col s (n_of_int off))) (c11_offsets s))
+
+(* input: hex source; output: the model of the code before 7d9a6a9 (ariadne), informational *)
+let c11_linecol_old (line : string) : string =
+  let s = str_of_hex line in
+  String.concat "," (List.map (fun off -> c11_show_res (lc_impl_line_col_old s (n_of_int off))) (c11_offsets s))
 
 (* input: <hex source> <start> <end> *)
 let c11_range (line : string) : string =
@@ -49,5 +45,5 @@ let c11_range (line : string) : string =
 (* spans are checked by the harness's oracle alone (no parser model here) *)
 let c11_spans (_ : string) : string = "spans"
 
-let families = [ ("c11_linecol", c11_linecol); ("c11_linecol_spec", c11_linecol_spec);
+let families = [ ("c11_linecol", c11_linecol); ("c11_linecol_spec", c11_linecol_spec); ("c11_linecol_old", c11_linecol_old);
                  ("c11_range", c11_range); ("c11_spans", c11_spans) ]
